@@ -269,4 +269,170 @@ theorem prepared_backend (fmt : R → List UInt8) (pages : List (PageB R)) (info
   obtain ⟨⟨h1, h2, h3, h4, _⟩, hb⟩ := runB_nosave fmt (buildOps pages) (emptyB info pages.length) (buildOps_nosave pages)
   exact ⟨hb, h2, h1, h4, h3⟩
 
+/-! ### the object numbers the builder hands out, and what it leaves pending under them -/
+
+theorem stepB_create (fmt : R → List UInt8) (b : BDoc R) (v : Prim R) :
+    (stepB fmt b (.create v)).1.doc.st = (create b.doc.st v).1 := rfl
+
+theorem stepB_promise (fmt : R → List UInt8) (b : BDoc R) : (stepB fmt b .promise).1.doc.st = (promise b.doc.st).1 := rfl
+
+theorem stepB_fulfil (fmt : R → List UInt8) (b : BDoc R) (id : Nat) (v : Prim R) (h : b.doc.st.refs[id]? = some .promised) :
+    (stepB fmt b (.fulfil id v)).1.doc.st = { b.doc.st with changes := chInsert b.doc.st.changes id (v, 0), cache := [] } := by
+  simp [stepB, OpB.toOp, step, update, h]
+
+/-- `n` promises: the table grows by `n` promised slots, nothing else changes -/
+theorem runB_promises (fmt : R → List UInt8) : ∀ (n : Nat) (b : BDoc R),
+    (runB fmt b (List.replicate n .promise)).1.doc.st.refs = b.doc.st.refs ++ List.replicate n .promised ∧
+    (runB fmt b (List.replicate n .promise)).1.doc.st.changes = b.doc.st.changes := by
+  intro n
+  induction n with
+  | zero => intro b; simp [runB]
+  | succ n ih =>
+    intro b
+    simp only [List.replicate_succ, runB]
+    obtain ⟨i1, i2⟩ := ih (stepB fmt b .promise).1
+    rw [stepB_promise] at i1 i2
+    simp only [promise, alloc] at i1 i2
+    exact ⟨by rw [i1]; simp, i2⟩
+
+/-- the state of the loop over the pages before page `k`: what is pending under which number -/
+structure Mid (pages : List (PageB R)) (k : Nat) (st : St (Prim R)) : Prop where
+  len : st.refs.length = pages.length + 2 + 2 * k
+  prom : ∀ j, k < j → j ≤ pages.length → st.refs[j]? = some .promised
+  tree : chLookup st.changes (pages.length + 1) = some (treeVal (List.range' 1 pages.length), 0)
+  done : ∀ k' p, k' < k → pages[k']? = some p →
+    chLookup st.changes (k' + 1) = some (pageVal (pages.length + 1) (pages.length + 2 + 2 * k') (pages.length + 3 + 2 * k') p, 0) ∧
+    chLookup st.changes (pages.length + 2 + 2 * k') = some (p.res, 0) ∧
+    chLookup st.changes (pages.length + 3 + 2 * k') = some (contentVal p.content, 0)
+
+theorem runB_pageOps (fmt : R → List UInt8) (pages : List (PageB R)) :
+    ∀ (ps : List (PageB R)) (k : Nat) (b : BDoc R), pages.drop k = ps → Mid pages k b.doc.st →
+      Mid pages (k + ps.length) (runB fmt b (pageOps pages.length k ps)).1.doc.st := by
+  intro ps
+  induction ps with
+  | nil => intro k b _ h; simpa [pageOps, runB] using h
+  | cons p ps ih =>
+    intro k b hdrop h
+    have hk : k < pages.length := by
+      have := congrArg List.length hdrop
+      simp at this; omega
+    have hpk : pages[k]? = some p := by
+      have := congrArg (fun l => l[0]?) hdrop
+      simpa using this
+    have hdrop' : pages.drop (k + 1) = ps := by
+      have := congrArg List.tail hdrop
+      simpa [List.tail_drop] using this
+    simp only [pageOps, runB]
+    -- the three operations of page `k`
+    have e1 := stepB_create fmt b p.res
+    have hlen1 : (stepB fmt b (.create p.res)).1.doc.st.refs.length = pages.length + 3 + 2 * k := by
+      rw [e1]; simp [create, alloc, h.len]; omega
+    have e2 := stepB_create fmt (stepB fmt b (.create p.res)).1 (contentVal p.content)
+    have hrefs2 : (stepB fmt (stepB fmt b (.create p.res)).1 (.create (contentVal p.content))).1.doc.st.refs
+        = b.doc.st.refs ++ [.promised, .promised] := by
+      rw [e2, e1]; simp [create, alloc]
+    have hprom : (stepB fmt (stepB fmt b (.create p.res)).1 (.create (contentVal p.content))).1.doc.st.refs[k + 1]? = some .promised := by
+      rw [hrefs2, List.getElem?_append_left (by rw [h.len]; omega)]
+      exact h.prom (k + 1) (by omega) (by omega)
+    have e3 := stepB_fulfil fmt _ (k + 1) (pageVal (pages.length + 1) (pages.length + 2 + 2 * k) (pages.length + 3 + 2 * k) p) hprom
+    have hch : ∀ j, chLookup (stepB fmt (stepB fmt (stepB fmt b (.create p.res)).1 (.create (contentVal p.content))).1
+          (.fulfil (k + 1) (pageVal (pages.length + 1) (pages.length + 2 + 2 * k) (pages.length + 3 + 2 * k) p))).1.doc.st.changes j =
+        if j = k + 1 then some (pageVal (pages.length + 1) (pages.length + 2 + 2 * k) (pages.length + 3 + 2 * k) p, 0)
+        else if j = pages.length + 3 + 2 * k then some (contentVal p.content, 0)
+        else if j = pages.length + 2 + 2 * k then some (p.res, 0)
+        else chLookup b.doc.st.changes j := by
+      intro j
+      rw [e3]; simp only [chLookup_chInsert]
+      rw [e2]; simp only [create, alloc, chLookup_chInsert]
+      rw [e1]; simp only [create, alloc, chLookup_chInsert, List.length_append, List.length_singleton, h.len]
+      have e : pages.length + 2 + 2 * k + 1 = pages.length + 3 + 2 * k := by omega
+      rw [e]
+    have hmid : Mid pages (k + 1) (stepB fmt (stepB fmt (stepB fmt b (.create p.res)).1 (.create (contentVal p.content))).1
+          (.fulfil (k + 1) (pageVal (pages.length + 1) (pages.length + 2 + 2 * k) (pages.length + 3 + 2 * k) p))).1.doc.st := by
+      refine ⟨?_, ?_, ?_, ?_⟩
+      · rw [e3]; simp only; rw [hrefs2]; simp [h.len]; omega
+      · intro j h1 h2
+        rw [e3]; simp only; rw [hrefs2, List.getElem?_append_left (by rw [h.len]; omega)]
+        exact h.prom j (by omega) h2
+      · rw [hch, if_neg (by omega), if_neg (by omega), if_neg (by omega)]; exact h.tree
+      · intro k' q hk' hq
+        by_cases hkk : k' = k
+        · subst hkk
+          rw [hpk] at hq; simp only [Option.some.injEq] at hq; subst hq
+          refine ⟨by rw [hch, if_pos rfl], ?_, ?_⟩
+          · rw [hch, if_neg (by omega), if_neg (by omega), if_pos rfl]
+          · rw [hch, if_neg (by omega), if_pos rfl]
+        · obtain ⟨d1, d2, d3⟩ := h.done k' q (by omega) hq
+          refine ⟨?_, ?_, ?_⟩
+          · rw [hch, if_neg (by omega), if_neg (by omega), if_neg (by omega)]; exact d1
+          · rw [hch, if_neg (by omega), if_neg (by omega), if_neg (by omega)]; exact d2
+          · rw [hch, if_neg (by omega), if_neg (by omega), if_neg (by omega)]; exact d3
+    have := ih (k + 1) _ hdrop' hmid
+    simp only [List.length_cons]
+    rw [show k + (ps.length + 1) = k + 1 + ps.length by omega]
+    exact this
+
+/-- **the numbering of `CatalogBuilder::build`**: when `save` is called, the page tree is pending under `n + 1`, the
+    leaf of page `k` under `k + 1`, its resources and content stream under `n + 2 + 2k` and `n + 3 + 2k`, the catalog
+    under `3n + 2` — the number the trailer names as `/Root` -/
+theorem prepared_changes (fmt : R → List UInt8) (pages : List (PageB R)) (info : Option (Prim R)) :
+    chLookup (prepared fmt pages info).doc.st.changes (3 * pages.length + 2) = some (catalogVal (pages.length + 1), 0) ∧
+    chLookup (prepared fmt pages info).doc.st.changes (pages.length + 1) = some (treeVal (List.range' 1 pages.length), 0) ∧
+    ∀ k p, pages[k]? = some p →
+      chLookup (prepared fmt pages info).doc.st.changes (k + 1) =
+        some (pageVal (pages.length + 1) (pages.length + 2 + 2 * k) (pages.length + 3 + 2 * k) p, 0) ∧
+      chLookup (prepared fmt pages info).doc.st.changes (pages.length + 2 + 2 * k) = some (p.res, 0) ∧
+      chLookup (prepared fmt pages info).doc.st.changes (pages.length + 3 + 2 * k) = some (contentVal p.content, 0) := by
+  have happ : ∀ (a c : List (OpB R)) (b : BDoc R), (runB fmt b (a ++ c)).1 = (runB fmt (runB fmt b a).1 c).1 := by
+    intro a
+    induction a with
+    | nil => intro c b; rfl
+    | cons op a ih => intro c b; simp only [List.cons_append, runB]; exact ih c _
+  -- the promises
+  obtain ⟨p1, p2⟩ := runB_promises fmt pages.length (emptyB info pages.length)
+  have p1' : (runB fmt (emptyB info pages.length) (List.replicate pages.length .promise)).1.doc.st.refs
+      = .free 0 65535 :: List.replicate pages.length .promised := by rw [p1]; rfl
+  have p2' : (runB fmt (emptyB info pages.length) (List.replicate pages.length .promise)).1.doc.st.changes = [] := by
+    rw [p2]; rfl
+  generalize hB : (runB fmt (emptyB info pages.length) (List.replicate pages.length .promise)).1 = bP at p1' p2'
+  -- the tree
+  have e1 := stepB_create fmt bP (treeVal (List.range' 1 pages.length))
+  have hmid0 : Mid pages 0 (stepB fmt bP (.create (treeVal (List.range' 1 pages.length)))).1.doc.st := by
+    refine ⟨?_, ?_, ?_, by intro k' p hk; omega⟩
+    · rw [e1]; simp [create, alloc, p1']
+    · intro j h1 h2
+      rw [e1]; simp only [create, alloc, p1']
+      rw [List.getElem?_append_left (by simp; omega)]
+      obtain ⟨j', rfl⟩ : ∃ j', j = j' + 1 := ⟨j - 1, by omega⟩
+      rw [List.getElem?_cons_succ]
+      simp [List.getElem?_replicate]; omega
+    · rw [e1]; simp only [create, alloc, chLookup_chInsert, p1', p2']
+      simp
+  have hm := runB_pageOps fmt pages pages 0 _ (by simp) hmid0
+  simp only [Nat.zero_add] at hm
+  -- the catalog
+  have hprep : (prepared fmt pages info) =
+      (stepB fmt (runB fmt (stepB fmt bP (.create (treeVal (List.range' 1 pages.length)))).1 (pageOps pages.length 0 pages)).1
+        (.create (catalogVal (pages.length + 1)))).1 := by
+    rw [← hB]
+    simp only [prepared, buildOps]
+    rw [happ, happ, happ]
+    simp [runB]
+  have e2 := stepB_create fmt (runB fmt (stepB fmt bP (.create (treeVal (List.range' 1 pages.length)))).1
+    (pageOps pages.length 0 pages)).1 (catalogVal (pages.length + 1))
+  have hch : ∀ j, chLookup (prepared fmt pages info).doc.st.changes j =
+      if j = 3 * pages.length + 2 then some (catalogVal (pages.length + 1), 0)
+      else chLookup (runB fmt (stepB fmt bP (.create (treeVal (List.range' 1 pages.length)))).1
+        (pageOps pages.length 0 pages)).1.doc.st.changes j := by
+    intro j
+    rw [hprep, e2]; simp only [create, alloc, chLookup_chInsert, hm.len]
+    have : pages.length + 2 + 2 * pages.length = 3 * pages.length + 2 := by omega
+    rw [this]
+  refine ⟨by rw [hch, if_pos rfl], by rw [hch, if_neg (by omega)]; exact hm.tree, ?_⟩
+  intro k p hp
+  have hk : k < pages.length := (List.getElem?_eq_some_iff.mp hp).1
+  obtain ⟨d1, d2, d3⟩ := hm.done k p hk hp
+  exact ⟨by rw [hch, if_neg (by omega)]; exact d1, by rw [hch, if_neg (by omega)]; exact d2,
+    by rw [hch, if_neg (by omega)]; exact d3⟩
+
 end BuildBytes
